@@ -73,7 +73,18 @@ def main():
         os.environ['VERIF_ISOLATE'] = '1'
         faulthandler.dump_traceback_later(job.get('run_timeout', 600),
                                           exit=True)
-        res = run_case(mod, job['case'])
+        case = job['case']
+        if 'sequence' in case:
+            # state carried from one run to the next inside a worker (a
+            # module-level cache in the library): re-execute the runs of the
+            # block that preceded the failing one, then the failing one
+            sq = case['sequence']
+            for i in sq['indices'][:-1]:
+                run_case(mod, mod.generate(sq['seed'], i, sq['tier']))
+            last = mod.generate(sq['seed'], sq['indices'][-1], sq['tier'])
+            res = run_case(mod, last)
+        else:
+            res = run_case(mod, case)
         emit(res)
     elif kind == 'shrink':
         os.environ['VERIF_ISOLATE'] = '1'
